@@ -1,1 +1,268 @@
-//! placeholder
+//! `enum state` — C16: saved state round-trips exactly; damaged state is rejected, not
+//! misread.  Small-scope instances: every strict prefix, every single-bit flip, all
+//! byte strings of length <= 2, constant strings of every length 0..64.
+use std::collections::{BTreeMap, HashMap};
+use std::sync::Arc;
+
+use serde_json::{json, Value};
+
+use crate::blob::{FileState, FileStateVec};
+use crate::current::CurrentFileStates;
+use crate::history::{History, RuleHistory};
+use crate::memsys::{Cfg, ClockModel, Fs, MemSystem};
+use crate::refsha;
+use crate::report::{Report, Violation};
+use crate::ticket::{Ticket, TicketFactory};
+use crate::world::{MFileState, MRuleHistory, MTable, MTicket, HISTORY_DIR, TABLE_FILE};
+
+fn ticket(i: usize) -> Ticket
+{
+    TicketFactory::from_str(&format!("pool-{}", i)).result()
+}
+
+fn fresh_sys() -> MemSystem
+{
+    let mut fs = Fs::new();
+    fs.put(".ruler/history/.keep", Arc::new(vec![]), 1, None);
+    fs.put(".ruler/cache/.keep", Arc::new(vec![]), 1, None);
+    MemSystem::new(fs, Cfg::plain(ClockModel::Strict))
+}
+
+/// histories with `n` entries of `k` targets each, drawn from a fixed pool in a few patterns
+fn histories() -> Vec<RuleHistory>
+{
+    let mut out = vec![RuleHistory::new()];
+    for n in 1..=3
+    {
+        for k in 1..=3
+        {
+            for shift in 0..3
+            {
+                let mut h = RuleHistory::new();
+                for e in 0..n
+                {
+                    let v = FileStateVec::from_ticket_vec((0..k).map(|t| ticket(10 + (e * 3 + t + shift) % 7)).collect());
+                    let _ = h.insert(ticket(e + shift), v);
+                }
+                out.push(h);
+            }
+        }
+    }
+    out
+}
+
+fn tables() -> Vec<Vec<(String, FileState)>>
+{
+    let names = ["t", "build/out.o", "a b"];
+    let mut out = vec![vec![]];
+    for n in 1..=3
+    {
+        for shift in 0..3
+        {
+            for exec in [false, true]
+            {
+                out.push((0..n).map(|i| (names[i].to_string(), FileState { ticket: ticket(i + shift), timestamp: 1_000_000 + (i as u64) * 17 + shift as u64, executable: exec && i == 0 })).collect());
+            }
+        }
+    }
+    out
+}
+
+struct Bad { map: BTreeMap<String, String> }
+impl Bad { fn add(&mut self, w: &str, d: String) { self.map.entry(w.to_string()).or_insert(d); } }
+
+fn read_history(bytes: &[u8]) -> Result<Result<RuleHistory, String>, ()>
+{
+    let sys = fresh_sys();
+    let name = ticket(99);
+    sys.with(|i| { let t = i.fs.tick(); i.fs.put(&format!("{}/{}", HISTORY_DIR, name), Arc::new(bytes.to_vec()), t, None); });
+    let h = History::new(sys, HISTORY_DIR);
+    std::panic::catch_unwind(move || h.read_rule_history(&name).map_err(|e| format!("{}", e))).map_err(|_| ())
+}
+
+fn read_table(bytes: &[u8], paths: Vec<String>) -> Result<Result<Vec<FileState>, String>, ()>
+{
+    let sys = fresh_sys();
+    sys.with(|i| { let t = i.fs.tick(); i.fs.put(TABLE_FILE, Arc::new(bytes.to_vec()), t, None); });
+    std::panic::catch_unwind(move ||
+    {
+        match CurrentFileStates::from_file(sys, TABLE_FILE.to_string())
+        {
+            Ok(mut c) =>
+            {
+                let blob = c.take_blob(paths);
+                Ok(blob.get_file_infos().into_iter().map(|fi| fi.file_state).collect())
+            },
+            Err(e) => Err(format!("{}", e)),
+        }
+    }).map_err(|_| ())
+}
+
+pub fn run(rep: &mut Report, tier: &str)
+{
+    let thorough = tier == "thorough";
+    let mut bad = Bad { map: BTreeMap::new() };
+    let mut evals = 0u64;
+    let mut instances = 0u64;
+    let mut prefixes = 0u64;
+    let mut flips = 0u64;
+    let mut flips_accepted = 0u64;
+
+    // --- rule histories: write with ruler's writer, read with ruler's reader
+    for h in histories()
+    {
+        instances += 1;
+        let sys = fresh_sys();
+        let name = ticket(99);
+        let mut hist = History::new(sys.clone(), HISTORY_DIR);
+        if hist.write_rule_history(name.clone(), h.clone()).is_err() { bad.add("writing a rule history failed", format!("{}", h)); continue; }
+        let back = History::new(sys.clone(), HISTORY_DIR).read_rule_history(&name);
+        evals += 1;
+        match back
+        {
+            Ok(b) => if b != h { bad.add("a rule history is not read back identically", format!("{} vs {}", h, b)); },
+            Err(e) => bad.add("a rule history just written cannot be read", format!("{}", e)),
+        }
+        let bytes: Vec<u8> = sys.with(|i| i.fs.read(&format!("{}/{}", HISTORY_DIR, name)).map(|b| (*b).clone()).unwrap_or_default());
+        // independent reading through mirror types agrees
+        match bincode::deserialize::<MRuleHistory>(&bytes)
+        {
+            Ok(m) => { let n: usize = format!("{}", h).lines().filter(|l| l.starts_with("  ") && !l.starts_with("    ")).count(); if m.source_to_targets.len() != n { bad.add("serialised history has a different number of entries", format!("{} vs {}", m.source_to_targets.len(), n)); } },
+            Err(_) => bad.add("serialised history is not the documented bincode map", String::new()),
+        }
+        // every strict prefix is rejected
+        for cut in 0..bytes.len()
+        {
+            prefixes += 1;
+            evals += 1;
+            match read_history(&bytes[..cut])
+            {
+                Err(()) => bad.add("reading a truncated rule history panics", format!("prefix {} of {}", cut, bytes.len())),
+                Ok(Ok(v)) => bad.add("a strict prefix of a rule history is accepted as valid", format!("prefix {} of {} reads as {}", cut, bytes.len(), v)),
+                Ok(Err(_)) => {},
+            }
+        }
+        // every single-bit flip: error or well-formed value, never a panic
+        if bytes.len() <= 200 || thorough
+        {
+            for bit in 0..bytes.len() * 8
+            {
+                let mut b = bytes.clone();
+                b[bit / 8] ^= 1 << (bit % 8);
+                flips += 1;
+                evals += 1;
+                match read_history(&b)
+                {
+                    Err(()) => bad.add("reading a bit-flipped rule history panics", format!("bit {} of {} bytes", bit, bytes.len())),
+                    Ok(Ok(_)) => flips_accepted += 1,
+                    Ok(Err(_)) => {},
+                }
+            }
+        }
+    }
+
+    // --- file-state tables
+    for t in tables()
+    {
+        instances += 1;
+        let sys = fresh_sys();
+        let paths: Vec<String> = t.iter().map(|x| x.0.clone()).collect();
+        {
+            let mut c = match CurrentFileStates::from_file(sys.clone(), TABLE_FILE.to_string()) { Ok(c) => c, Err(e) => { bad.add("creating a table failed", format!("{}", e)); continue; } };
+            for (p, st) in &t { c.insert_file_state(p.clone(), st.clone()); }
+            if c.to_file().is_err() { bad.add("writing the table failed", String::new()); continue; }
+        }
+        let bytes: Vec<u8> = sys.with(|i| i.fs.read(TABLE_FILE).map(|b| (*b).clone()).unwrap_or_default());
+        evals += 1;
+        match read_table(&bytes, paths.clone())
+        {
+            Ok(Ok(states)) =>
+            {
+                let want: Vec<FileState> = t.iter().map(|x| x.1.clone()).collect();
+                if states != want { bad.add("the file-state table is not read back identically", format!("{:?} vs {:?}", want, states)); }
+            },
+            Ok(Err(e)) => bad.add("a table just written cannot be read", e),
+            Err(()) => bad.add("reading a table just written panics", String::new()),
+        }
+        match bincode::deserialize::<MTable>(&bytes)
+        {
+            Ok(m) => if m.file_states.len() != t.len() { bad.add("serialised table has a different number of entries", String::new()); },
+            Err(_) => bad.add("serialised table is not the documented bincode map", String::new()),
+        }
+        for cut in 0..bytes.len()
+        {
+            prefixes += 1;
+            evals += 1;
+            match read_table(&bytes[..cut], paths.clone())
+            {
+                Err(()) => bad.add("reading a truncated table panics", format!("prefix {} of {}", cut, bytes.len())),
+                Ok(Ok(_)) => bad.add("a strict prefix of a file-state table is accepted as valid", format!("prefix {} of {}", cut, bytes.len())),
+                Ok(Err(_)) => {},
+            }
+        }
+        if bytes.len() <= 200 || thorough
+        {
+            for bit in 0..bytes.len() * 8
+            {
+                let mut b = bytes.clone();
+                b[bit / 8] ^= 1 << (bit % 8);
+                flips += 1;
+                evals += 1;
+                match read_table(&b, paths.clone())
+                {
+                    Err(()) => bad.add("reading a bit-flipped table panics", format!("bit {} of {} bytes", bit, bytes.len())),
+                    Ok(Ok(_)) => flips_accepted += 1,
+                    Ok(Err(_)) => {},
+                }
+            }
+        }
+    }
+
+    // --- arbitrary bytes: every string of length <= 2, constant strings of length 0..64
+    let mut arbitrary = 0u64;
+    let mut tiny: Vec<Vec<u8>> = vec![vec![]];
+    for a in 0..=255u8 { tiny.push(vec![a]); }
+    for a in 0..=255u8 { for b in 0..=255u8 { tiny.push(vec![a, b]); } }
+    for len in 0..=64usize { for c in [0u8, 1, 0x7f, 0xff] { tiny.push(vec![c; len]); } }
+    for t in tiny
+    {
+        arbitrary += 2;
+        evals += 2;
+        match read_history(&t)
+        {
+            Err(()) => bad.add("reading arbitrary bytes as a rule history panics", format!("{:?}", &t[..t.len().min(8)])),
+            Ok(Ok(h)) => { if t.len() < 8 { bad.add("fewer than 8 bytes are accepted as a rule history", format!("{:?} reads as {}", t, h)); } },
+            Ok(Err(_)) => {},
+        }
+        match read_table(&t, vec!["t".to_string()])
+        {
+            Err(()) => bad.add("reading arbitrary bytes as a file-state table panics", format!("{:?}", &t[..t.len().min(8)])),
+            Ok(Ok(_)) => { if t.len() < 8 { bad.add("fewer than 8 bytes are accepted as a file-state table", format!("{:?}", t)); } },
+            Ok(Err(_)) => {},
+        }
+    }
+
+    rep.set("evaluations", json!(evals));
+    rep.set("states", json!(instances));
+    rep.set("transitions", json!(evals));
+    rep.set("traces_validated_against_impl", json!(evals));
+    rep.set("distinct_nontrivial", json!(instances));
+    rep.set("instances", json!(instances));
+    rep.set("strict_prefixes", json!(prefixes));
+    rep.set("single_bit_flips", json!(flips));
+    rep.set("bit_flips_read_as_wellformed_other_data", json!(flips_accepted));
+    rep.set("arbitrary_byte_strings", json!(arbitrary));
+    rep.set("exhaustive", json!(true));
+    rep.set("rule", json!("rule histories with 0..3 entries x 1..3 targets and tables with 0..3 paths from a fixed pool: round trip, every strict prefix, every single-bit flip; all byte strings of length <= 2; constant strings of length 0..64"));
+    rep.push_sample(json!({"history_entries": 2, "targets": 3, "check": "every strict prefix of its 258 bytes is rejected"}));
+    for (what, detail) in bad.map
+    {
+        rep.violation(Violation
+        {
+            property: "C16".into(),
+            signature: format!("C16:state:{}", what),
+            summary: format!("{}: {}", what, detail),
+            replay: json!({"engine": "state", "what": what}),
+        });
+    }
+}
